@@ -24,6 +24,12 @@ func init() {
 			discardedErrorRules(c, "C16")
 			// the sticky error survives the quick reset
 			c18Writer(c)
+			// a header cut inside its extended length / mask bytes is an error of both decoders
+			c01Decoder(c, "C16.decode-table", c.fn("C16.decode-table", ws, "ReadHeader"), false)
+			c01Decoder(c, "C16.decode-table", c.method("C16.decode-table", wsutil, "Reader", "readHeader"), true)
+			// the dialer's context watcher may replace the handshake's I/O error only by the
+			// context's error, never by nil
+			c20Watcher(c)
 		},
 	})
 }
